@@ -26,7 +26,7 @@ fn kv_run(fx: &mut Filter, x: Frame) -> Frame {
 	buf[0]
 }
 
-// @h prop=C13 tier=quick kind=main timeout=280
+// @h prop=C13 tier=quick kind=main timeout=600
 // @bounds all four modes; mix 0 (fully dry); any finite input and any finite integrator state |v| <= 1e6; cutoff 1 kHz, resonance 0, 48 kHz
 // @funcs Filter::process
 // @assume f64::tan replaced by its native value at the one argument used
@@ -44,7 +44,7 @@ fn c13_filter_dry_is_identity_and_state_stays_finite() {
 	std::mem::forget(fx);
 }
 
-// @h prop=C13 tier=quick kind=main timeout=280
+// @h prop=C13 tier=quick kind=main timeout=600
 // @bounds all four modes, any mix in [0,1] (symbolic f32): silence in with cleared state -> exact silence out and cleared state
 // @funcs Filter::process
 // @assume f64::tan replaced by its native value
@@ -62,7 +62,7 @@ fn c13_filter_silence_stays_silent() {
 	std::mem::forget(fx);
 }
 
-// @h prop=C14,C13 tier=quick kind=main timeout=280
+// @h prop=C14,C13 tier=quick kind=main timeout=600
 // @bounds fully wet, all four modes; input and integrator state small integers |v| <= 4 (mono); one frame: compared with the Simper/Cytomic trapezoidal SVF update written out in f64-derived f32 constants in the same operation order
 // @funcs Filter::process
 // @assume f64::tan replaced by its native value
